@@ -460,6 +460,8 @@ func b2i(b bool) int {
 
 //@ func (c *Compiler) lowerCallIndirect(typeIndex, tableIndex uint32)
 //@   requires c.ssaBuilder != nil && c.m != nil && int(typeIndex) < len(c.m.TypeSection) && len(c.loweringState.values) >= 1 && len(c.loweringState.values)-1 >= len(c.m.TypeSection[typeIndex].Params)
+//@   records callTypeIndex = int(typeIndex)
+//@   records callTableIndex = int(tableIndex)
 //@   ensures[memory-reloaded-after-the-call] c.needMemory && !c.memoryShared ==> gg("H:lenReloads") == old(gg("H:lenReloads"))+1 && gg("H:baseReloads") == old(gg("H:baseReloads"))+1
 //@   nosafety keep-pre
 
@@ -476,6 +478,7 @@ func b2i(b bool) int {
 
 //@ func (c *Compiler) lowerCall(fnIndex uint32)
 //@   requires c.ssaBuilder != nil && c.m != nil
+//@   records callIndex = int(fnIndex)
 //@   ensures[memory-reloaded-after-the-call] c.needMemory && !c.memoryShared ==> gg("H:lenReloads") == old(gg("H:lenReloads"))+1 && gg("H:baseReloads") == old(gg("H:baseReloads"))+1
 //@   nosafety
 
@@ -539,4 +542,19 @@ func anyImport() int { return int(verif_uf_u64("anyImport", 0)) }
 //@   requires !c.loweringState.unreachable && len(c.loweringState.values) >= 2
 //@   ensures[index-checked-against-the-table-of-the-immediate] ssa.ExitsWith(wazevoapi.ExitCodeTableOutOfBounds) == old(ssa.ExitsWith(wazevoapi.ExitCodeTableOutOfBounds))+1 && gg("tblIndex") == int(old(c.wasmFunctionBody[c.loweringState.pc+1])) && gg("tblOffset") == int(old(stackAt(c, 1)))
 //@   ensures[element-stored-at-the-checked-address] gg("lastOp") == int(ssa.OpcodeStore) && gg("lastV") == int(old(stackAt(c, 0))) && gg("lastV2") == gg("tblElemAddr") && uint32(gg("lastU1")) == 0
+//@   nosafety keep-pre
+
+// call / call_indirect: the immediates reach the lowering in the order the binary format gives them
+// (function index; type index, then table index).
+//@ prop C04
+//@ case call (c *Compiler) lowerCurrentOpcode()
+//@   requires c.ssaBuilder != nil && c.m != nil && c.loweringState.pc >= 0 && c.loweringState.pc < 1<<39 && c.loweringState.pc+1 < len(c.wasmFunctionBody) && c.wasmFunctionBody[c.loweringState.pc] == wasm.OpcodeCall && c.wasmFunctionBody[c.loweringState.pc+1] < 0x80
+//@   requires !c.loweringState.unreachable
+//@   ensures[calls-the-function-of-the-immediate] gg("callIndex") == int(old(c.wasmFunctionBody[c.loweringState.pc+1]))
+//@   nosafety keep-pre
+
+//@ case call_indirect (c *Compiler) lowerCurrentOpcode()
+//@   requires c.ssaBuilder != nil && c.m != nil && c.loweringState.pc >= 0 && c.loweringState.pc < 1<<39 && c.loweringState.pc+2 < len(c.wasmFunctionBody) && c.wasmFunctionBody[c.loweringState.pc] == wasm.OpcodeCallIndirect && c.wasmFunctionBody[c.loweringState.pc+1] < 0x80 && c.wasmFunctionBody[c.loweringState.pc+2] < 0x80
+//@   requires !c.loweringState.unreachable && int(c.wasmFunctionBody[c.loweringState.pc+1]) < len(c.m.TypeSection) && len(c.loweringState.values) >= 1 && len(c.loweringState.values)-1 >= len(c.m.TypeSection[c.wasmFunctionBody[c.loweringState.pc+1]].Params)
+//@   ensures[type-index-then-table-index] gg("callTypeIndex") == int(old(c.wasmFunctionBody[c.loweringState.pc+1])) && gg("callTableIndex") == int(old(c.wasmFunctionBody[c.loweringState.pc+2]))
 //@   nosafety keep-pre
